@@ -32,7 +32,7 @@ belongs to a recorded finding):
                        command naming it (re-runs of a finished instance in a merged flow are C02's subject).
 
 Recorded findings (keys): `live-parent-any-output`, `sequential-task`, `abs-trigger-in-group`,
-`other-flow-member` — see findings/C28.json.  The judge never calls the transition functions of the model.
+`other-flow-member`, `unpooled-object-triggered` — see findings/C28.json.  The judge never calls the transition functions of the model.
 -/
 import CylcModel.Sched3TrigJson
 import CylcModel.Generated.TrigFlags
@@ -80,6 +80,7 @@ structure Ob where
   launch : List Launch
   msgs : List MsgRec
   toWaiting : List Key         -- proxies whose status went (back) to waiting in this op
+  unpooledPrep : List Key      -- objects that entered job preparation while they were not the pooled proxy
   stopped : Bool
   stopMode : Bool
   deriving Inhabited
@@ -110,7 +111,12 @@ def parseOb (ob : Json) : Ob :=
     | some (p :: n :: old :: new :: _) =>
       if jStr? new == some "waiting" && jStr? old != some "waiting" then do pure ((← jInt? p), (← jStr? n)) else none
     | _ => none
-  { pool, pre, now, launch, msgs, toWaiting,
+  let unpooledPrep := ((jArrField? ob "trans").getD []).filterMap fun r =>
+    match jArr? r with
+    | some [p, n, _, new, _, _, _, inPool] =>
+      if jStr? new == some "preparing" && jBool? inPool == some false then do pure ((← jInt? p), (← jStr? n)) else none
+    | _ => none
+  { pool, pre, now, launch, msgs, toWaiting, unpooledPrep,
     stopped := (jOptField ob "stop").isSome, stopMode := (jOptField ob "stop_mode").isSome }
 
 def Ob.get? (o : Ob) (k : Key) : Option PO := o.pool.find? (·.key == k)
@@ -299,20 +305,29 @@ def judgeAll (g : Graph) (seqTasks : List String) (ops : List Json) (trigs : Lis
       | none => [])
     for (x, y) in ls.zip (ls.drop 1) do
       if x.1 == y.1 then
-        fails := fails ++ [⟨none, s!"ran-twice: member {showKey m} launched twice by one main loop (op {x.1 - 1})"⟩]
+        let unpooled := match obs[x.1]? with | some ox => ox.unpooledPrep.contains m | none => false
+        fails := fails ++ [⟨if unpooled then some "unpooled-object-triggered" else none,
+          s!"ran-twice: member {showKey m} launched twice by one main loop (op {x.1 - 1})"⟩]
       else if inter x.2.fl y.2.fl || (x.2.fl.isEmpty && y.2.fl.isEmpty) then
         let justified := (List.range (y.1 + 1)).any fun q => q > x.1 &&
           ((match obs[q]? with | some o => o.toWaiting.contains m || (o.get? m).isNone | none => false) ||
            (match ops[q - 1]? with | some op => namesKey op m | none => false))
         if !justified then
-          fails := fails ++ [⟨none, s!"ran-twice: member {showKey m} launched again (job {x.2.sn} by op {x.1 - 1}, job {y.2.sn} by op {y.1 - 1}) without having left the pool, been put back to waiting or been named by a command"⟩]
-  return (fails.filter (·.key.isNone)) ++ (fails.filter (·.key.isSome))
+          let unpooled := match obs[x.1]?, obs[y.1]? with
+            | some ox, some oy => ox.unpooledPrep.contains m || oy.unpooledPrep.contains m
+            | _, _ => false
+          fails := fails ++ [⟨if unpooled then some "unpooled-object-triggered" else none, s!"ran-twice: member {showKey m} launched again (job {x.2.sn} by op {x.1 - 1}, job {y.2.sn} by op {y.1 - 1}) without having left the pool, been put back to waiting or been named by a command"⟩]
+  -- new failures first; among the recorded ones the duplicate job first
+  return (fails.filter (·.key.isNone)) ++ (fails.filter (·.key == some "unpooled-object-triggered")) ++
+    (fails.filter fun f => f.key.isSome && f.key != some "unpooled-object-triggered")
 
 def handle (i o : Json) : Except String Reply := do
   if let some r := crashReply? i then return r
   let c ← parseCase i
   -- the behaviour flag probed from the live code decides which variant of the model runs
-  let c := { c with graph := { c.graph with anyOutput := CylcModel.TrigFlags.anyOutput } }
+  let gr : Graph := { c.graph with anyOutput := CylcModel.TrigFlags.anyOutput,
+                                   triggerUnpooled := CylcModel.TrigFlags.triggerUnpooled }
+  let c := { c with graph := gr }
   let tasksJ := (jField? ((jField? i "graph").getD Json.null) "tasks").getD Json.null
   let seqTasks := c.graph.tasks.filterMap fun t =>
     if (jBoolField? ((jField? tasksJ t.name).getD Json.null) "sequential").getD false then some t.name else none
